@@ -48,11 +48,12 @@ type layerParams struct {
 	frameMax      int // plaintext bytes per frame (generator aim / labels)
 	tagLen        int // >0 enables the Noise read-path model
 	strictOther   bool
+	readDeadlines bool // a Read that timed out can be resumed (see drawConnDeadlines)
 }
 
 var (
 	noiseParams = layerParams{hdr: 2, overhead: 16, frameMax: noiseFrame, tagLen: 16, strictOther: true}
-	tlsParams   = layerParams{hdr: 5, overhead: 17, frameMax: tlsFrame}
+	tlsParams   = layerParams{hdr: 5, overhead: 17, frameMax: tlsFrame, readDeadlines: true}
 	pnetParams  = layerParams{frameMax: 1 << 30}
 )
 
@@ -61,6 +62,7 @@ type secureSetup func(rawA, rawB net.Conn) (a, b net.Conn, err error)
 type connOutcome struct {
 	rd      [2]readResult
 	wr      [2]int
+	ws      [2]writeResult
 	applied bool
 	offset  int
 }
@@ -75,6 +77,16 @@ func drawConnCase(rt *rapid.T, layer string, lp layerParams, tamper bool) *connC
 	c.Dir[1] = drawDir(rt, "ba", 1)
 	if !tamper {
 		c.Cap = rapid.SampledFrom(capSizes).Draw(rt, "cap")
+		// pausing writers, slow readers; where the layer allows it read deadlines with a reader that carries on
+		if rapid.IntRange(0, 3).Draw(rt, "dl-case") == 0 {
+			drawConnDeadlines(rt, "ab", &c.Dir[0], lp.readDeadlines)
+			drawConnDeadlines(rt, "ba", &c.Dir[1], lp.readDeadlines)
+			if (c.Dir[0].DL.R < 0 || c.Dir[1].DL.R < 0) && c.Cap > 0 && c.Cap < 4096 {
+				// a polling reader is the only one who drains the pipe: every poll moves at most one
+				// pipe capacity; keep the number of polls per frame small
+				c.Cap = 4096
+			}
+		}
 		return c
 	}
 	// tampered direction: at least one byte, so at least one frame exists
@@ -122,13 +134,15 @@ func runConnCase(f failer, env runEnv, c *connCase, lp layerParams, setup secure
 		go func() {
 			defer func() { wdone <- struct{}{} }()
 			defer sk.guard(who + " writer")
-			out.wr[d] = runWriter(w, c.Dir[d], data[d], sk, who+" writer", tolerate)
+			out.ws[d] = runWriter(w, c.Dir[d], data[d], sk, who+" writer", tolerate)
+			out.wr[d] = out.ws[d].n
 		}()
 		go func() {
 			defer func() { rdone <- struct{}{} }()
 			defer sk.guard(who + " reader")
 			out.rd[d] = runReader(r, c.Dir[d], c.Dir[d].frames(lp.frameMax), data[d], sk, who+" reader",
-				readerCfg{mode: readUntilErr, frameMax: lp.frameMax, tagLen: lp.tagLen, tampered: tampering && d == c.TDir, extraRead: 4})
+				readerCfg{mode: readUntilErr, frameMax: lp.frameMax, tagLen: lp.tagLen, tampered: tampering && d == c.TDir, extraRead: 4,
+					setDL: r.SetReadDeadline})
 		}()
 	}
 	if !env.waitDone(wdone, 2) {
@@ -301,6 +315,7 @@ func connLabels(c *connCase, lp layerParams, out connOutcome) (labels []string, 
 		if len(c.Dir[d].Writes) > 1 {
 			add("writes>1")
 		}
+		dlLabels(add, c.Dir[d], out.ws[d], rd, false)
 	}
 	if c.Cap > 0 {
 		add("pipe:bounded")
